@@ -53,6 +53,7 @@ type GenOpts struct {
 	Vocabulary  string // "" = full native vocabulary; "model" = the fragment modelled in Coq
 	NoAt        bool
 	NoStartEnd  bool
+	Fallbacks   bool // also functions the engine does not implement (answered through the fallback)
 	SelectorOnly bool
 	Focus        string // "" | range | agg | bin | func : construct forced at the top of the expression
 	Epoch        bool   // shift the window so that one of its steps is at -1ms (times around and before the epoch)
@@ -339,6 +340,9 @@ var rangeFuncs = []string{"rate", "increase", "delta", "irate", "idelta", "deriv
 var simpleFuncs = []string{"abs", "ceil", "floor", "sqrt", "exp", "ln", "log2", "log10", "sin", "cos", "tan", "asin", "acos",
 	"atan", "sinh", "cosh", "tanh", "asinh", "acosh", "atanh", "rad", "deg"}
 
+// functions of the reference engine that the engine leaves to the fallback
+var fallbackFuncs = []string{"round", "sgn", "hour", "minute", "month", "year", "day_of_month", "day_of_week", "days_in_month", "sort"}
+
 var modelFuncs = []string{"abs", "sqrt", "ceil", "floor"}
 
 var arithOps = []string{"+", "-", "*", "/", "%", "^", "atan2"}
@@ -367,6 +371,9 @@ func (g *qgen) vec(d int) string {
 		fs := simpleFuncs
 		if g.o.Vocabulary == "model" {
 			fs = modelFuncs
+		}
+		if g.o.Fallbacks && g.r.Intn(2) == 0 {
+			fs = fallbackFuncs
 		}
 		return fmt.Sprintf("%s(%s)", pick(g.r, fs), g.vec(d-1))
 	case k == 8:
@@ -567,6 +574,9 @@ func (g *qgen) funcOf(d int) string {
 		return fmt.Sprintf("%s %s %s", g.scalAtom(d), pick(g.r, []string{"+", "-", "*", "/", "%", "^", "== bool", "> bool"}), g.scalAtom(d))
 	case 8:
 		return fmt.Sprintf("histogram_quantile(%s, %s)", g.qparam(d-1), g.vec(d-1))
+	}
+	if g.o.Fallbacks && g.r.Intn(2) == 0 {
+		return fmt.Sprintf("%s(%s)", pick(g.r, fallbackFuncs), g.vec(d-1))
 	}
 	return fmt.Sprintf("%s(%s)", pick(g.r, simpleFuncs), g.vec(d-1))
 }
